@@ -157,10 +157,22 @@ class AWSElastiCacheHashClient(HashClient):
 
         May useful on error handling during cluster scale down or scale up
         """
+        nodes = self._get_nodes_list()
+
         old_clients = self.clients.copy()
         self.clients.clear()
+        # The rotation lives in the hasher: drop the nodes of the previous
+        # configuration (and what was recorded about their failures),
+        # otherwise keys keep being routed to nodes that are gone.
+        for key in old_clients:
+            try:
+                self.hasher.remove_node(key)
+            except ValueError:
+                pass  # already evicted as dead
+        self._failed_clients.clear()
+        self._dead_clients.clear()
 
-        for server in self._get_nodes_list():
+        for server in nodes:
             self.add_server(normalize_server_spec(server))
 
         for client in old_clients.values():
